@@ -198,6 +198,17 @@ Definition close_client (s : st) (now : Z) : st :=
        (clones s) (closed_oids s ++ map i_oid (closing_imgs (subs s))) (registry s)
        (lingering s ++ closing_lists now (subs s)) (cblog s ++ closing_cbs (subs s)) (ringfull s).
 
+(* on_channel_endpoint_error_response for the channel status indicator the subscriptions of these histories are registered on
+   (the publications sit on another one): every registered subscription that is not yet closed hands over its images
+   (close_and_remove_images), each is closed and reported unavailable, the list lingers, and the conductor forgets the
+   subscription - the application keeps the closed handle; the client stays open. A later announcement for such a
+   subscription is ignored like one for an unknown subscription. *)
+Definition chan_sub (o : sobj) : sobj := if closing o then mkSobj (so_reg o) [] true false else o.
+Definition chan_err (s : st) (now : Z) : st :=
+  mkSt (t_chk s) (cclosed s) (nid s) (noid s) (map chan_sub (subs s)) (pubs s)
+       (clones s) (closed_oids s ++ map i_oid (closing_imgs (subs s))) (registry s)
+       (lingering s ++ closing_lists now (subs s)) (cblog s ++ closing_cbs (subs s)) (ringfull s).
+
 Inductive op :=
 | Subscribe (now : Z)                      (* add_subscription; ON_SUBSCRIPTION_READY in a duty cycle; find_subscription *)
 | Publish (now share file : Z)             (* add_publication; ON_PUBLICATION_READY (original registration id = share, or its own when share < 0); find_publication *)
@@ -210,7 +221,8 @@ Inductive op :=
 | Unhold (j : Z)                           (* ... and drops its j-th clone *)
 | CloseClient (now : Z)
 | Stall                                    (* the driver stalls and the to-driver ring fills up: every further command is refused *)
-| Drain.                                   (* the driver consumes the ring *)
+| Drain                                    (* the driver consumes the ring *)
+| ChanErr (now : Z).                       (* ON_ERROR with code 4 (channel endpoint error) for the subscriptions' channel status indicator, in a duty cycle *)
 
 Fixpoint remove_nth {A} (n : nat) (l : list A) : list A :=
   match l, n with
@@ -270,6 +282,7 @@ Definition step (m : mode) (lg : Z) (s : st) (o : op) : outcome (st * outcome Z)
   | CloseClient now => Ok (close_client s now, Ok 0)
   | Stall => Ok (upd_full s true, Ok 0)
   | Drain => Ok (upd_full s false, Ok 0)
+  | ChanErr now => s1 <- timers m lg now (chan_err s now) ;; Ok (s1, Ok 0)
   end.
 
 (* ---- what one operation shows ---- *)
